@@ -356,6 +356,12 @@ func runC02(c *Ctx) {
 				}
 			}
 		}
+		// … or the closure lifted to a method of its own (new since the anchor snapshot)
+		for _, ci := range CallsIn(addToTree) {
+			if cf := CalleeFunc(ci.Common()); cf != nil && cf.Blocks != nil && IsRepoFunc(cf) && IsNewFunc(cf) {
+				cands = append(cands, cf)
+			}
+		}
 		for _, a := range cands {
 			if len(FieldWrites([]*ssa.Function{a}, headIds)) == 0 {
 				continue
